@@ -59,6 +59,9 @@ def judge_c08(sc, keep, res, inproc):
             bad.append('comparison #%d is labelled with recording %d' % (e['id'], g['id']))
         if g['verdict'] != e['verdict']:
             bad.append('recording %d (%s): verdict %s, expected %s' % (e['id'], sc['beh'][e['id'] - 1], g['verdict'], e['verdict']))
+        if g.get('kept') != e.get('kept'):
+            bad.append('recording %d (%s): results kept in the comparison belong to %s, expected %s'
+                       % (e['id'], sc['beh'][e['id'] - 1], g.get('kept'), e.get('kept')))
         if g['attached'] != e['attached']:
             bad.append('recording %d (%s): attached replay of recording %s, expected %s'
                        % (e['id'], sc['beh'][e['id'] - 1], g['attached'], e['attached']))
